@@ -698,6 +698,9 @@ def run(ctx: Check, tree: Tree) -> None:
     ctx.section(check_arg_order, ctx, tree)
     ctx.section(check_internal_rebuild, ctx, tree)
     ctx.section(check_change_propagation, ctx, tree)
+    from .c18 import check_subs_returns
+
+    ctx.section(check_subs_returns, ctx, tree)  # the sum helper class: subs-then-unfold == unfold-then-subs needs the pools substituted, too
     from .c15 import check_reentrant_new
 
     ctx.section(check_reentrant_new, ctx, tree)  # "reproduced by rebuilding it from its own arguments" for the array helper classes
